@@ -65,13 +65,15 @@ P = {
   ref="DESIGN.md section 5 C02"),
  "C09": dict(
   text="53 Lean theorems about the executable byte-level model of eval's parser and evaluator (nextOperator with the e- hack "
-       "restricted to numeric literals, two-stack reduction with the evaluator state explicit between calls, function capture "
+       "for signed exponents e-/e+/E-/E+ restricted to numeric literals, two-stack reduction with the evaluator state explicit between calls, function capture "
        "by parenthesis counting, NextArg, replaceVariables, TrimSpace) and of the FIXED-POINT evaluator's values "
        "(Model/EvalFixed.lean: FixedFrom for every operand kind through C04's literal parser, the operators || && == != < <= > "
        ">= + - * / % with their string fall-backs and the configured division by zero, signs, abs ceil floor round max min if, "
        "all arithmetic being C03's F64 operations): precedence_table on the regenerated operator tables, parse_render and "
        "evaluate_render for the full expression language in every blank layout, fixed_value_render (Evaluate of a rendered "
-       "well-formed expression = value of its tree, for D1..D16, both division-by-zero settings, every layout), "
+       "well-formed expression = value of its tree, for D1..D16, both division-by-zero settings, every layout) and "
+       "fixed_value_render_vars (the same with variables answered by literals, at top level and inside call arguments), "
+       "fixed_evaluate_no_panic (every byte list, every Dk), "
        "fixed_operators_are_f64 / fixed_operators_exact (composition with C03's exactness theorems), div_by_zero_configured, "
        "sign_on_literal / sign_applies_to_operand_value, whitespace_irrelevant, reuse_eq_fresh for EVERY old evaluator state "
        "with reuse_after_any_history and the contrast reset_is_needed, parse_no_panic and evaluate_no_panic / evaluate_total "
@@ -84,7 +86,9 @@ P = {
        "resolver hypothesis: answers contain no '$' (replaceVariables re-scans its own output, so a self-referential resolver "
        "never returns - outside 'resolvers mapping variables to literals', Appendix B); after a REJECTED expression the model "
        "continues from a fixed placeholder state rather than the true leftover stacks (the theorem covers every old state, the "
-       "driver threads the true state only after successful evaluations); wrong-arity calls are outside 'well-formed'.",
+       "driver threads the true state only after successful evaluations); a variable answered by a NEGATIVE literal inside call "
+       "arguments is outside evaluate_render (it is re-parsed there as a sign on the literal; covered at top level and "
+       "empirically); wrong-arity calls are outside 'well-formed'.",
   ref="DESIGN.md section 5 C09, section 0"),
  "C13": dict(
   text="34 Lean theorems. tracelog: the bytes of a record proved equal to a declarative line specification (format_spec, "
@@ -181,15 +185,20 @@ P = {
        "per-call verdict universal over all points of all open cells for rectilinear lattice inputs; validateGeneral_sound / "
        "validatePoints_sound / clear_not_on_edge for general-position inputs on sample points (also taken from the result's own "
        "interior) that provably keep a margin from every edge; emptyCert_sound + resultEmpty_no_region: where the combined "
-       "region is certified empty (separated operands, identical operands, a covering rectangle, an operand without edges) the "
-       "result must be empty and the law then holds at every point; decodeBits_exact / decodeBits_none_iff (the float decoding "
+       "region is certified empty (operands separated by an axis-parallel line or by the line through one of their edges - every "
+       "pair of disjoint convex contours, overlapping boxes or not -, identical operands for Sub/Xor, a covering axis-parallel "
+       "rectangle for Sub, an operand without edges) the result must be empty and the law then holds at every point "
+       "(sepLine_sound, noContact_disjoint_partial, validateGeneral_judged); decodeBits_exact / decodeBits_none_iff (the float decoding "
        "is exact for every finite bit pattern), inside_int_iff_rat, inside_scale/translate, xor_concat, inside_rotate/reverse. "
-       "~99k calls / 6.7M judgements per quick run (5.1M exhaustive cells, 1.7M sample points, ~1600 certified-empty sampled "
-       "calls); operands deep-compared, panics caught.",
+       "~102k calls / 7.0M judgements per quick run (5.1M exhaustive cells, 2.0M sample points; ~9800 general-position calls "
+       "of which ~3100 certified-empty and ~990 judged-empty); operands deep-compared, panics caught.",
   note="nothing universal about the clipper over inputs is proved; lattice calls are decided exhaustively per call, general-"
        "position calls are judged on sample points only (100 candidates per call plus about 60 from the result, margin 1/64 or "
        "1/1024); 'empty when the region is empty' is exhaustive on lattice calls and on sampled calls required only where "
-       "emptyCert certifies emptiness; points on lattice lines are not judged; a call with no judged point is counted as "
+       "emptyCert certifies emptiness; beyond the proved certificate the validator applies the exact general judgement noContact "
+       "(Intersect: boundaries do not meet and no vertex of one operand is inside the other) and containedIn (Sub) and demands an "
+       "empty result: the soundness of that judgement is a topological fact that is STATED, NOT PROVED (proved only for "
+       "line-separated operands) - were it false the effect would be false alarms, not misses; points on lattice lines are not judged; a call with no judged point is counted as "
        "unjudged, never as validated; KNOWN FINDINGS (known_findings.json, 9 fixed inputs in corpus/C05/degenerate.known.ops): on "
        "degenerate non-rectilinear lattice inputs the clipper panics or returns wrong regions, and on one sub-epsilon input it "
        "panics - the repair is not a small patch. Inputs whose coordinates are all below the clipper's ABSOLUTE epsilon of 1e-5 "
